@@ -5,7 +5,7 @@
    Notation: rv = 3-vectors over R; rdot/rcross/rscale/rnorm; qrot a b c d = rotation of the unit quaternion (a,b,c,d);
    lists are innermost layer first; sarvas is in units of mu0/(4 pi). *)
 From Coq Require Import Reals List ZArith Lra.
-From OM Require Import Base.Ops Geom.SphereVec Geom.Sphere Geom.SphereProofs Geom.SpherePotProofs.
+From OM Require Import Base.Ops Geom.SphereVec Geom.Sphere Geom.SphereProofs Geom.SpherePotProofs Geom.SphereMoreProofs.
 Import ListNotations.
 Local Open Scope R_scope.
 
@@ -96,6 +96,26 @@ Theorem legendre_rec_spec : forall x : R,
                    x * legendre_d ROps_c01 (S n) x + (INR (S n) + 1) * legendre ROps_c01 (S n) x).
 Proof. exact legendre_spec. Qed.
 Print Assumptions legendre_rec_spec.
+
+(* the recursion for P_n' really is the derivative of the Legendre polynomial computed by the three-term recursion *)
+Theorem legendre_d_is_derivative : forall (n : nat) (x : R),
+  derivable_pt_lim (fun y => legendre ROps_c01 n y) x (legendre_d ROps_c01 n x).
+Proof. exact legendre_d_derivative. Qed.
+Print Assumptions legendre_d_is_derivative.
+
+(* the accumulator loop computes  acc + sum_i c_i (qr d_(n+i) - qw d_(n+i-1))  with d = solid Legendre derivatives *)
+Theorem series_computes_stated_sum : forall (cs : list R) (t m2 qr qw : R) (k : nat) (acc : R),
+  series ROps_c01 cs t m2 qr qw (S k) (leg_state ROps_c01 t m2 k) acc = acc + series_sum cs t m2 qr qw (S k).
+Proof. exact series_is_sum. Qed.
+Print Assumptions series_computes_stated_sum.
+
+(* sanity of the whole chain against the closed form of the homogeneous sphere: for a dipole at the centre the series
+   (any number of terms >= 1) equals the closed form 3 q.r/(4 pi sigma R^2 |r|) *)
+Theorem one_layer_series_first_terms : forall (Ro sg : R) (q r : rv) (nterms : nat),
+  0 < Ro -> rnorm r <> 0 -> (1 <= nterms)%nat ->
+  sphere_pot ROps_c01 [Ro] [sg] q rzero r nterms = homog_closed ROps_c01 Ro sg q rzero r.
+Proof. exact centre_dipole_closed_form. Qed.
+Print Assumptions one_layer_series_first_terms.
 
 (* hypotheses are satisfiable: a rotation that is not the identity, a source inside the sensor sphere *)
 Example rotation_exists : (1/2)*(1/2) + (1/2)*(1/2) + (1/2)*(1/2) + (1/2)*(1/2) = 1 /\
